@@ -13,12 +13,14 @@ import (
 // [LAYOUT] — byte-layout extraction for loop-free hash-building code (DESIGN.md section 3).
 //
 // Of(v) renders the bytes denoted by an SSA value as a term:
-//   K(p1|...|pn)   keccak-256 of the concatenation
-//   U8(x) BE32(x) BE64(x) LE64(x) U256BE(x)   fixed-width integer encodings
-//   RAW20(x) RAW32(x)                           an address / hash array as is
-//   BYTES(x)                                    a variable-length byte string
-//   PHI{a|b}                                    alternatives merged by control flow
-//   LIST(x)                                     a dynamic list of byte strings (not expanded)
+//
+//	K(p1|...|pn)   keccak-256 of the concatenation
+//	U8(x) BE32(x) BE64(x) LE64(x) U256BE(x)   fixed-width integer encodings
+//	RAW20(x) RAW32(x)                           an address / hash array as is
+//	BYTES(x)                                    a variable-length byte string
+//	PHI{a|b}                                    alternatives merged by control flow
+//	LIST(x)                                     a dynamic list of byte strings (not expanded)
+//
 // Anything the evaluator does not model is rendered "?…" so that comparisons fail visibly.
 type Layout struct {
 	Sx *Symx
